@@ -3,13 +3,14 @@ import Compute.Model.Scalar
 import Compute.Model.Shape
 import Compute.Model.Constructors
 import Compute.Model.Rotations
+import Compute.Model.ShapeExtra
 /-
 Driver for C15 (stateful session: one current matrix).  State-changing requests are parsed into a
 `Shape.Op Float` and executed by `Shape.applyOp` — the function the theorems of Props/C15 are about; a
 panicking request leaves the current matrix unchanged (as the Rust code does).
 Replies: `= r c <data>` for a matrix, `= len <data>` for a vector, `= 0|1` for a predicate, `! panic`.
 -/
-open Cv Cv.Shape Cv.Ctor Cv.Rot
+open Cv Cv.Shape Cv.Ctor Cv.Rot Cv.ShapeX
 
 def epsF : Float := Float.ofBits 0x3CB0000000000000   -- f64::EPSILON = 2⁻⁵²
 
@@ -120,6 +121,39 @@ def c15Query (m : Mat Float) (op : String) (args : List String) : String :=
       else badOp
   | _ => badOp
 
+/-- The state-changing requests of the coverage extension (`Model/ShapeExtra.lean`). -/
+def parseOpX : String → P (ShapeX.OpX Float)
+  | "sort_data" => pure .sortData
+  | "dmset" => do let k ← pNat; let v ← pFloat; pure (.dataMutSet k v)
+  | "with_shape_fill" => do let r ← pNat; let c ← pNat; let v ← pFloat; pure (.withShapeFill r c v)
+  | "with_capacity" => do let r ← pNat; let c ← pNat; pure (.withCapacity r c)
+  | "sumrows_mat" => pure .sumRowsToMatrix
+  | "sumcols_mat" => pure .sumColsToMatrix
+  | _ => failure
+
+def isOpXName (s : String) : Bool :=
+  ["sort_data", "dmset", "with_shape_fill", "with_capacity", "sumrows_mat", "sumcols_mat"].contains s
+
+/-- Queries and stateless requests of the coverage extension; `none` = not one of them. -/
+def c15QueryX (m : Mat Float) (op : String) (args : List String) : Option String :=
+  match op with
+  | "shape" => some <| withArgs (pure ()) args fun _ => ok s!"{(ShapeX.shape m).1} {(ShapeX.shape m).2}"
+  | "size" => some <| withArgs (pure ()) args fun _ => ok s!"{ShapeX.size m}"
+  | "sum_rows" => some <| withArgs (pure ()) args fun _ => ok (showVec (sumRows m))
+  | "sum_cols" => some <| withArgs (pure ()) args fun _ => ok (showVec (sumCols m))
+  | "vnew" => some <| withArgs pVec args fun d => ok (showVec (vecNew d))
+  | "vempty" => some <| withArgs (pure ()) args fun _ => ok (showVec (vecEmpty : List Float))
+  | "vzeros" => some <| withArgs pNat args fun n => ok (showVec (vecZeros n : List Float))
+  | "vones" => some <| withArgs pNat args fun n => ok (showVec (vecOnes n : List Float))
+  | "vwith_capacity" => some <| withArgs pNat args fun n => ok s!"{(vecWithCapacity n : List Float).length}"
+  | "vempty_n" => some <| withArgs pNat args fun n => ok s!"{(vecEmptyN (fun _ => (0.0 : Float)) n).length}"
+  | "vsort" => some <| withArgs pVec args fun d => optVec (vecSort d)
+  | "with_shape" => some <| withArgs (do let r ← pNat; let c ← pNat; pure (r, c)) args fun (r, c) =>
+      match withShape (fun _ => (0.0 : Float)) r c with
+      | some w => ok s!"{w.nrows} {w.ncols} {w.data.length}"
+      | none => panicked
+  | _ => none
+
 def c15Step (m : Mat Float) (toks : List String) : Mat Float × String :=
   match toks with
   | [] => (m, badOp)
@@ -131,6 +165,15 @@ def c15Step (m : Mat Float) (toks : List String) : Mat Float × String :=
         match applyOp o m with
         | some m' => (m', ok (showMat m'))
         | none => (m, panicked)
-    else (m, c15Query m op args)
+    else if isOpXName op then
+      match (do let o ← parseOpX op; pEnd; pure o : P (ShapeX.OpX Float)).run args with
+      | none => (m, badOp)
+      | some (o, _) =>
+        match applyOpX (fun _ => (0.0 : Float)) o m with
+        | some m' => (m', ok (showMat m'))
+        | none => (m, panicked)
+    else match c15QueryX m op args with
+      | some r => (m, r)
+      | none => (m, c15Query m op args)
 
 def main (args : List String) : IO UInt32 := mainWith (⟨[], 0, 0⟩ : Mat Float) c15Step args
